@@ -151,7 +151,9 @@ func FuzzC14(f *testing.F) {
 		c14NoHistory = true
 		var msg string
 		if server {
-			synctest.Test(t, func(t *testing.T) { msg, _ = runC14Server(t, c14ServerCase{Mode: mode, Offers: []string{text}, Lines: true}) })
+			synctest.Test(t, func(t *testing.T) {
+				msg, _ = runC14Server(t, c14ServerCase{Mode: mode, Offers: []string{text}, Lines: true})
+			})
 		} else {
 			synctest.Test(t, func(t *testing.T) { msg, _ = runC14Client(t, c14ClientCase{Mode: mode, Resp: text}) })
 			if strings.HasPrefix(msg, "a response the client can honour") && !c14Canonical.MatchString(text) {
